@@ -119,12 +119,44 @@ def _call_obs(obj, v):
     return {"kind": k, "out": None}, None
 
 
+class _Slow(Exception):
+    pass
+
+
+def _alarm(signum, frame):
+    raise _Slow()
+
+
+_TIMEOUTS = [0]
+
+
+def _limited(f, obj, seconds=2.0):
+    """run f(obj) under a wall-clock limit (a tree that validation made grow can make repr /
+    annotation inference exponentially slow: that must show up as a difference, not as a hang)"""
+    import signal
+    import threading
+    if threading.current_thread() is not threading.main_thread():
+        return f(obj)
+    if _TIMEOUTS[0] > 15:
+        seconds = 0.25          # this process keeps meeting pathological trees: do not wait long
+    old = signal.signal(signal.SIGALRM, _alarm)
+    signal.setitimer(signal.ITIMER_REAL, seconds)
+    try:
+        return f(obj)
+    except _Slow:
+        _TIMEOUTS[0] += 1
+        return "!timeout"
+    finally:
+        signal.setitimer(signal.ITIMER_REAL, 0)
+        signal.signal(signal.SIGALRM, old)
+
+
 def _texts(obj):
     from statham.serializers import serialize_json, serialize_python
     out = []
     for f in (repr, lambda o: json.dumps(serialize_json(o), sort_keys=True, default=repr), serialize_python):
         try:
-            out.append(f(obj))
+            out.append(_limited(f, obj))
         except Exception as exc:  # noqa
             out.append("!" + type(exc).__name__)
     return out
